@@ -54,6 +54,8 @@ def generate(seed, tier, k):
             op["full_output"] = r.random() < 0.3
         if name in ("eigvals", "eigvalsh"):
             op["shear"] = r.random() < 0.4
+        if name in ("eig", "eigvals"):
+            op["nonsym"] = r.random() < 0.4
         if name == "tovoigt":
             op["strain"] = r.random() < 0.5
         if name == "rotation":
@@ -66,6 +68,11 @@ def generate(seed, tier, k):
             op["num"] = r.choice([1, 2, 5, [2, 3], [1, 4, 2]])
             op["endpoint"] = r.random() < 0.7
             op["axis"] = r.choice([None, 0, 1])
+            op["axes"] = r.choice([2, 2, 3, None])
+            if op["axes"] is None and op["axis"] is None:
+                op["axes"] = 2
+            ncol_ = op["axes"] if op["axes"] is not None else (op["axis"] or 0) + 1
+            op["values"] = r.choice([0.25, 0.0, [round(r.uniform(-1, 1), 2) for _ in range(ncol_)]])
         ops.append(op)
     doc = {
         "kind": "c17",
@@ -307,6 +314,24 @@ class Machine:
             Af, Bf = np.broadcast_to(A, (3,) + full), np.broadcast_to(B, (3,) + full)
             ref = np.array([Af[1] * Bf[2] - Af[2] * Bf[1], Af[2] * Bf[0] - Af[0] * Bf[2], Af[0] * Bf[1] - Af[1] * Bf[0]])
             run_variants(lambda out, parallel: fm.cross(A, B), [A, B], ref, 1, supports_out=False)
+        elif name in ("eig", "eigvals") and op.get("nonsym"):
+            A = tensor(rng, (d, d), b, False)
+            dg = adigest(A)
+            wref = np.sort_complex(np.linalg.eigvals(items(A, 2)))
+            if name == "eig":
+                res = fm.eig(A)
+                vals, vecs = res.eigenvalues, res.eigenvectors
+                # A v = lambda v per batch item
+                Av = np.einsum("ij...,ja...->ia...", A, vecs)
+                lv = vecs * vals[None]
+                self.check_ref(name, np.abs(Av - lv), np.zeros(Av.shape), site="eig.nonsymmetric.pairs", rtol=1e-9)
+                got = np.sort_complex(items(vals, 1))
+            else:
+                got = np.sort_complex(items(fm.eigvals(A), 1))
+            if np.abs(got - wref).max() > 1e-9 * (1 + np.abs(wref).max()):
+                self.V("definition", f"{name}: eigenvalues of a non-symmetric tensor differ from numpy.linalg per batch item by {np.abs(got - wref).max():.2e}", site=name + ".nonsymmetric")
+            self.unchanged(name, [A], [dg], "plain")
+            self.sigs.append(name + "-nonsym")
         elif name in ("eigh", "eigvalsh", "eig", "eigvals"):
             A = tensor(rng, (d, d), b, False, symmetric=True)
             Ai = items(A, 2)
@@ -405,7 +430,9 @@ class Machine:
             self.sigs.append(name)
         elif name == "linsteps":
             pts, num, endpoint = op["points"], op["num"], op["endpoint"]
-            got = fm.linsteps(pts, num=num, endpoint=endpoint, axis=op["axis"], axes=None if op["axis"] is None else 2, values=0.25)
+            ax_n = op.get("axes", 2)
+            vals_ = op.get("values", 0.25)
+            got = fm.linsteps(pts, num=num, endpoint=endpoint, axis=op["axis"], axes=None if op["axis"] is None else ax_n, values=vals_)
             nums = list(np.array([num]).ravel())
             segs = max(len(pts) - 1, 0)
             if len(nums) == 1:
@@ -420,7 +447,8 @@ class Machine:
                 ref.append(pts[-1])
             ref = np.array(ref, dtype=float)
             if op["axis"] is not None:
-                full_ = np.full((len(ref), 2), 0.25)
+                ncol = ax_n if ax_n is not None else op["axis"] + 1
+                full_ = np.ones((len(ref), ncol)) * np.atleast_2d(vals_)
                 full_[:, op["axis"]] = ref
                 ref = full_
             self.check_ref(name, got, ref, site="linsteps")
@@ -430,6 +458,12 @@ class Machine:
             I = fm.identity(A)
             if I.shape != (d, d, 1, 1) or not np.array_equal(I[:, :, 0, 0], np.eye(d)):
                 self.V("definition", "identity(A) is not the unit tensor with singleton batch axes", site="identity")
+            I2 = fm.identity(dim=d, shape=(2, 3))
+            if I2.shape != (d, d, 1, 1) or not np.array_equal(I2[:, :, 0, 0], np.eye(d)):
+                self.V("definition", "identity(dim=, shape=) is not the unit tensor with one singleton axis per batch axis", site="identity.dim-shape")
+            R4 = fm.ravel(fm.dya(A, A))
+            if R4.shape != (d**4,) + A.shape[2:] or not np.array_equal(fm.reshape(R4, (d, d, d, d)), fm.dya(A, A)):
+                self.V("definition", "ravel / reshape do not round-trip a fourth-order tensor batch", site="ravel-reshape")
             self.sigs.append(name)
         else:
             raise ValueError(name)
